@@ -355,7 +355,26 @@ impl AggKind {
 // effective parameters shared by the request builder and the evaluator
 
 pub fn q_interval(q: u8) -> f64 {
-    q.max(1) as f64 / 4.0
+    // 200.. = intervals that are not dyadic rationals: bucket keys `pos * interval + offset` are inexact in f64
+    match q {
+        200 => 0.1,
+        201 => 0.3,
+        202 => 0.7,
+        203 => 1.1,
+        204 => 2.3,
+        _ => q.max(1) as f64 / 4.0,
+    }
+}
+pub fn q_fractional(q: u8) -> bool {
+    q >= 200
+}
+/// offset of a histogram request (always smaller than the interval)
+pub fn q_offset(interval_q: u8, offset_q: Option<u8>) -> f64 {
+    match offset_q {
+        None => 0.0,
+        Some(o) if q_fractional(interval_q) => (o % 7) as f64 * 0.013,
+        Some(o) => (o % interval_q.max(1)) as f64 / 4.0,
+    }
 }
 pub fn range_cuts(c: &Corpus, field: Fld, cuts: &[i16], half: bool) -> Vec<f64> {
     let mut v: Vec<f64> = cuts
@@ -700,8 +719,8 @@ fn node_json(n: &AggNode, depth: usize, rc: &ReqCtx, after: &dyn Fn(&[usize]) ->
             let mut b = Map::new();
             b.insert("field".into(), json!(field.name()));
             b.insert("interval".into(), json!(q_interval(*interval_q)));
-            if let Some(off) = offset_q {
-                b.insert("offset".into(), json!((*off % interval_q.max(&1)) as f64 / 4.0));
+            if offset_q.is_some() {
+                b.insert("offset".into(), json!(q_offset(*interval_q, *offset_q)));
             }
             if let Some(m) = min_doc_count {
                 b.insert("min_doc_count".into(), json!(*m));
@@ -1120,7 +1139,7 @@ fn eval_node(n: &AggNode, depth: usize, docs: &[&DocM], env: &Env, path: &mut Ve
         }
         AggKind::Histogram { field, interval_q, offset_q, min_doc_count, hard, ext, keyed } => {
             let interval = q_interval(*interval_q);
-            let offset = offset_q.map(|o| (o % (*interval_q).max(1)) as f64 / 4.0).unwrap_or(0.0);
+            let offset = q_offset(*interval_q, *offset_q);
             let (hard_b, ext_b) = hist_bounds(&|x| bound_val(c, *field, x), *hard, *ext, *min_doc_count);
             let value_of = |d: &DocM| nums(d, *field);
             let bs = histogram_buckets(docs, &value_of, interval, offset, hard_b, ext_b, min_doc_count.unwrap_or(0) as u64, env, !n.subs.is_empty());
